@@ -112,6 +112,17 @@ class RepoIndex:
                                 return VStr(v)
         return None
 
+    def assigns_attr(self, cls, name):
+        """does some method of cls (or of a base class) assign self.<name>?"""
+        for c in self.mro(cls):
+            if c not in self.classes:
+                continue
+            for n in ast.walk(self.classes[c][1]):
+                if isinstance(n, ast.Attribute) and isinstance(n.ctx, ast.Store) and n.attr == name \
+                        and isinstance(n.value, ast.Name) and n.value.id == 'self':
+                    return True
+        return False
+
     def field_kind(self, cls, name):
         return self.field_kinds.get((cls, name))
 
